@@ -1485,11 +1485,11 @@ async def run_case(case, r: R):
         if case['mode'] == 'enum':
             frames = list(drv.enum_frames())
             frames = frames[case['part']::case['parts']]
+            solo = [f for f in frames if f[0].startswith('solo-')]        # never thinned out
+            frames = [f for f in frames if not f[0].startswith('solo-')]
             if case.get('stride', 1) > 1:
                 off = case['seed'] % case['stride']
                 frames = frames[off::case['stride']]
-            solo = [f for f in frames if f[0].startswith('solo-')]
-            frames = [f for f in frames if not f[0].startswith('solo-')]
             groups = [frames[i:i + 5] for i in range(0, len(frames), 5)] + [[f] for f in solo]
         else:
             groups = None
